@@ -1288,5 +1288,130 @@ theorem route_time_is_sum_distance_noAccess {c : Config α} {route : List (Branc
     simp only [turnDelayTerm, hac, delayTerm_noAccess]
   rw [h1, h2, sum_map_zero, sum_map_zero, add_zero, add_zero]
 
+/-! ### Any chain of successful traversals accumulates (not only search routes)
+
+`chain` traverses a given list of edges in order, each from the state and edge before it — the shape
+of the adjacent-edges case of `run_edge_oriented` and of `reorient_reverse_route`. -/
+
+/-- the route obtained by traversing the edges `es` in order (`none` when a traversal fails) -/
+def chain (c : Config α) : Option Nat → List α → List Nat → Option (List (Branch α))
+  | _, _, [] => some []
+  | last, st, e :: r =>
+    match edgeTraversal c e last st with
+    | .error _ => none
+    | .ok (ac, tc, st') =>
+      match chain c (some e) st' r with
+      | none => none
+      | some rest =>
+        some ({ terminal := 0, edge := e, access := ac, traversal := tc, state := st' } :: rest)
+
+theorem chain_accFrom {c : Config α} :
+    ∀ (es : List Nat) (last : Option Nat) (st : List α) (route : List (Branch α)),
+      chain c last st es = some route → AccFrom c last st route ∧ route.map (·.edge) = es
+  | [], _, _, route, h => by
+    simp only [chain, Option.some.injEq] at h
+    subst h
+    exact ⟨trivial, rfl⟩
+  | e :: r, last, st, route, h => by
+    unfold chain at h
+    split at h
+    · cases h
+    · rename_i ac tc st' hstep
+      split at h
+      · cases h
+      · rename_i rest hrest
+        simp only [Option.some.injEq] at h
+        subst h
+        obtain ⟨h1, h2⟩ := chain_accFrom r (some e) st' rest hrest
+        exact ⟨⟨hstep, h1⟩, by simp [h2]⟩
+
+/-! ### Non-vacuity: speed-table model with turn delays, four different units
+
+Three edges 0→1→2→3 of 1000 m, 500 m, 2000 m at 36, 18, 72 km/h; the model computes in kilometres
+and hours, the features are time in minutes (initial 5), an unrelated slot (initial 7) and distance
+in miles (initial 1); headings 0°, 90°, 90° so the first turn is a right turn and the second is no
+turn; delays in seconds, a different one per turn class.  The states of the traversal chain are
+exactly the closed forms, the hypotheses of the theorems are met, and time strictly increases. -/
+
+def speedExample : Config ℚ where
+  nV := 4
+  edges := [⟨0, 1, 1000⟩, ⟨1, 2, 500⟩, ⟨2, 3, 2000⟩]
+  outAdj := [[0], [1], [2], []]
+  inAdj := [[], [0], [1], [2]]
+  feats := [{ name := "time", kind := .time .minutes, init := 5 },
+            { name := "spare", kind := .other, init := 7 },
+            { name := "distance", kind := .dist .miles, init := 1 }]
+  trav := .speed .kilometersPerHour .kilometers .hours 120 [36, 18, 72]
+  access := .turnDelay .seconds [(0, none), (90, none), (90, some 90)]
+    [some 1, some 2, some 3, some 4, some 5, some 6, some 7, some 8]
+  cost := { indices := [0, 2], weights := [1, 1, 1], vehicleRates := [.raw, .raw, .raw],
+            networkRates := [.zero, .zero, .zero], agg := .sum }
+  frontier := []
+  term := .combined []
+  reverse := false
+  gc := []
+  wf := some 0
+
+theorem speedExample_timeSlot : TimeSlot speedExample.feats 0 .minutes := ⟨by decide, rfl⟩
+theorem speedExample_distSlot : DistSlot speedExample.feats 2 .miles := ⟨by decide, rfl⟩
+
+/-- (time, spare, distance) reported along the chain = the closed forms, evaluated independently -/
+example :
+    (chain speedExample none (initialState speedExample.feats) [0, 1, 2]).map
+        (·.map (fun b => (b.state[0]?, b.state[1]?, b.state[2]?))) =
+      some ([0, 1, 2].map (fun k =>
+        (some (5 + ((([0, 1, 2] : List Nat).take (k + 1)).map
+              (timeTerm speedExample.trav speedExample.edges .minutes)).sum
+            + ((pairs (([0, 1, 2] : List Nat).take (k + 1))).map
+              (fun p => turnDelayTerm speedExample .minutes p.1 p.2)).sum),
+         some 7,
+         some (1 + ((([0, 1, 2] : List Nat).take (k + 1)).map
+              (distTerm speedExample.trav speedExample.edges .miles)).sum)))) := by
+  decide +kernel
+
+/-- the terms are what the property says: the time of edge 0 is `create_time` of its table speed
+(36 km/h) and its length (1000 m in kilometres), in hours; the right turn onto edge 1 costs the
+table's entry for "right" (4 s), going straight onto edge 2 the entry for "no turn" (1 s), each
+converted from seconds to the feature's minutes -/
+example :
+    speedTime? speedExample.edges .kilometersPerHour .kilometers .hours [36, 18, 72] 0 =
+      createTime 36 .kilometersPerHour (DistanceUnit.meters.convert .kilometers 1000) .kilometers .hours ∧
+    (speedTime? speedExample.edges .kilometersPerHour .kilometers .hours [36, 18, 72] 0).isSome = true ∧
+    turnDelayTerm speedExample .minutes 0 1 = TimeUnit.seconds.convert .minutes 4 ∧
+    turnDelayTerm speedExample .minutes 1 2 = TimeUnit.seconds.convert .minutes 1 := by
+  decide +kernel
+
+/-- the theorems apply to that chain -/
+example : ∃ route, chain speedExample none (initialState speedExample.feats) [0, 1, 2] = some route ∧
+    Accumulates speedExample route ∧ route.length = 3 ∧
+    (∃ times dls : List ℚ, times.length = 3 ∧ dls.length = 2 ∧
+      ∀ k (hk : k < route.length), route[k].state[0]? =
+        some (5 + ((times.take (k + 1)).map (TimeUnit.hours.convert .minutes)).sum
+          + ((dls.take k).map (TimeUnit.seconds.convert .minutes)).sum)) ∧
+    ∀ k (hk : k + 1 < route.length) x y, route[k].state[0]? = some x →
+      route[k + 1].state[0]? = some y → x < y := by
+  have hsome : (chain speedExample none (initialState speedExample.feats) [0, 1, 2]).isSome = true := by
+    decide +kernel
+  obtain ⟨route, hroute⟩ := Option.isSome_iff_exists.1 hsome
+  obtain ⟨hacc, hedges⟩ := chain_accFrom _ _ _ _ hroute
+  have hlen : route.length = 3 := by
+    have := congrArg List.length hedges
+    simpa using this
+  have hdel : DelaysNonneg speedExample.access := by
+    intro d hd
+    simp only [List.mem_cons, Option.some.injEq, List.not_mem_nil, or_false] at hd
+    rcases hd with rfl | rfl | rfl | rfl | rfl | rfl | rfl | rfl <;> norm_num
+  refine ⟨route, hroute, hacc, hlen, ?_, route_time_strict hacc speedExample_timeSlot hdel rfl⟩
+  obtain ⟨f, times, dls, hf, h1, h2, _, _, h5⟩ :=
+    route_time_is_sum_speed_turnDelay hacc speedExample_timeSlot rfl rfl
+  have hf5 : f.init = 5 := by
+    have : speedExample.feats[0]? = some ⟨"time", .time .minutes, 5⟩ := rfl
+    rw [this] at hf
+    cases hf
+    rfl
+  refine ⟨times, dls, by omega, by omega, ?_⟩
+  intro k hk
+  rw [h5 k hk, hf5]
+
 end RouteSums
 end Compass
